@@ -49,6 +49,11 @@ def other(name):
         c.emplace_gate('k', G.ALWAYS_TRUE, ())
         c.emplace_gate('w', G.NOT, ('k',))
         c.set_outputs(['w', 'k'])
+    elif name == 'O9':  # labels that already start with a block prefix
+        c.add_inputs(['B@a', 'C@a'])
+        c.emplace_gate('B@n', G.GT, ('B@a', 'C@a'))
+        c.emplace_gate('n', G.NOT, ('B@n',))
+        c.set_outputs(['n', 'B@n'])
     elif name == 'O4':  # with an internal block and a dead gate
         c.add_inputs(['a', 'b'])
         c.emplace_gate('q', G.GT, ('a', 'b'))
@@ -111,6 +116,15 @@ def start(name):
         c.set_outputs(['g1', 'g0'])
         c.make_block('K', ['g0'], ['g0', 'x0'], ['s', 'x0'])
         return c
+    if name == 'S6':  # every non-bench shape at once (comparisons, LNOT/RIFF, constants with and without operands)
+        c.add_inputs(['x0', 'x1'])
+        c.emplace_gate('g0', G.GT, ('x0', 'x1'))
+        c.emplace_gate('g1', G.ALWAYS_TRUE, ())
+        c.emplace_gate('g2', G.RIFF, ('g0', 'x1'))
+        c.emplace_gate('g3', G.LEQ, ('g2', 'g1'))
+        c.set_outputs(['g3', 'g0'])
+        c.make_block('K', ['g0', 'g2'], ['g2'])
+        return c
     raise KeyError(name)
 
 
@@ -144,6 +158,16 @@ def apply_op(c, op):
         c.order_inputs(list(op[1]))
     elif k == 'order_outputs':
         c.order_outputs(list(op[1]))
+    elif k == 'set_inputs_live':  # the caller hands the circuit's own (live) list back
+        c.set_inputs(c.inputs)
+    elif k == 'set_outputs_live':
+        c.set_outputs(c.outputs)
+    elif k == 'order_inputs_live':
+        c.order_inputs(c.inputs)
+    elif k == 'order_outputs_live':
+        c.order_outputs(c.outputs)
+    elif k == 'replace_inputs_live':
+        c.replace_inputs(c.inputs, [])
     elif k == 'replace_inputs':
         c.replace_inputs(list(op[1]), list(op[2]))
     elif k == 'connect_circuit':
@@ -209,7 +233,8 @@ def warm_up(c):
 def canon(c):
     """Canonical state: everything a future call can observe."""
     net = refmodel.abstract(c)
-    raw_users = tuple(sorted((k, tuple(sorted(v))) for k, v in c._gate_to_users.items() if v))
+    raw = getattr(c, '_gate_to_users', None)  # finer than public observation; optional
+    raw_users = tuple(sorted((k, tuple(sorted(v))) for k, v in raw.items() if v)) if isinstance(raw, dict) else ()
     return (net.key(), raw_users)
 
 
@@ -260,6 +285,9 @@ def menu(c, level='full'):
         m.append(['order_outputs', [l]])
     if len(outs) >= 2:
         m.append(['order_outputs', list(reversed(outs))])
+    m += [['set_inputs_live'], ['set_outputs_live'], ['order_inputs_live'], ['order_outputs_live']]
+    if ins:
+        m.append(['replace_inputs_live'])
     for assign in itertools.product((None, True, False), repeat=len(ins)):
         if all(a is None for a in assign):
             continue
@@ -311,6 +339,8 @@ def menu(c, level='full'):
 
 
 def composition_menu(c, level='full', others=('O1', 'O2', 'O3')):
+    if level == 'full':
+        others = tuple(others) + ('O4',)
     labs = list(c.gates)
     ins = list(c.inputs)
     m = []
@@ -320,9 +350,10 @@ def composition_menu(c, level='full', others=('O1', 'O2', 'O3')):
         on = other_net(o)
         oin = on.inputs
         ogates = list(on.gates)
-        for name, pref in namings:
+        heavy = o == 'O4'  # block-carrying attached circuit: one naming option, left-connections complete or empty
+        for name, pref in (namings[1:2] if heavy and len(namings) > 1 else namings):
             # left: every duplicate-free tuple of other's inputs (incl. partial) x every tuple of base gates
-            for r in range(0, len(oin) + 1):
+            for r in ((0, len(oin)) if heavy else range(0, len(oin) + 1)):
                 for oc in itertools.permutations(oin, r):
                     for tc in itertools.product(labs, repeat=r):
                         m.append(['connect_circuit', o, list(tc), list(oc), False, name, pref])
